@@ -408,9 +408,10 @@ class Interp:
                 env[kw.arg] = self.eval(d, fn.env)
             else:
                 raise PyExc("TypeError", (f"missing kw argument {kw.arg}",))
+        if a.kwarg:
+            env[a.kwarg.arg] = dict(kwargs)   # python-level dict of the extra keywords (passed on by **kw calls)
+            kwargs = {}
         if kwargs:
-            if a.kwarg:
-                raise Unsupported("**kwargs parameter with actual keywords")
             raise PyExc("TypeError", (f"unexpected keyword {list(kwargs)}",))
         return env
 
@@ -1573,7 +1574,11 @@ class Interp:
         kwargs = {}
         for k in e.keywords:
             if k.arg is None:
-                raise Unsupported("**kwargs call")
+                kv = self.eval(k.value, env)
+                if not isinstance(kv, dict):
+                    raise Unsupported("**kwargs call with a symbolic mapping")
+                kwargs.update(kv)
+                continue
             kwargs[k.arg] = self.eval(k.value, env)
         return self.call(f, args, kwargs, e)
 
